@@ -450,7 +450,14 @@ def verdict(prop, mod, tier, seed, groups, results, t0, a):
             undecided.append('%s: canary %s undecided (%s)' % (gname, stem, obs[0]['detail'][:120]))
     # vacuity: baseline obligation stems must still be generated
     missing = []
-    if baseline is not None and a.group is None and not broken:
+    left_any = any(r.get('left_fragment') for r in results)
+    if baseline is not None and a.group is None and not broken and left_any:
+        # some symbolic execution stopped for a reason of the tool (unmodelled construct, block not found): obligations that were not generated are undecided, not violated
+        have = proved_stems | failed_stems
+        lost = [s_ for s_ in sorted(baseline) if s_ not in have and not (tier == 'quick' and s_.startswith('T:'))]
+        if lost:
+            undecided.append('%d baseline obligations were not generated because a path left the modelled fragment (first: %s)' % (len(lost), lost[0]))
+    if baseline is not None and a.group is None and not broken and not left_any:
         have = proved_stems | failed_stems
         for s in sorted(baseline):
             tiers_ok = True
